@@ -418,12 +418,22 @@ def under(root, path):
     return path is not None and (path == root or path.startswith(root + os.sep))
 
 
+_HEX = set("0123456789abcdefABCDEF")
+
+
+def staging_name(name):
+    """A directory directly under objects/, metadata/ or refs/ that cannot be part of a permanent address: permanent
+    addresses are made of hexadecimal shard tokens (and refs/pids, refs/cids). Today that directory is called 'tmp';
+    the harness does not depend on the name."""
+    return name not in ("pids", "cids") and bool(name) and not set(name) <= _HEX
+
+
 def is_private_tmp(root, path):
-    """A thread-private temp file: <root>/{objects,metadata,refs}/tmp/<name>."""
+    """A thread-private staging file: <root>/{objects,metadata,refs}/<staging dir>/<name>."""
     if not under(root, path):
         return False
     rel = path[len(root) + 1:].split(os.sep)
-    return len(rel) == 3 and rel[1] == "tmp" and rel[0] in ("objects", "metadata", "refs")
+    return len(rel) == 3 and rel[0] in ("objects", "metadata", "refs") and staging_name(rel[1])
 
 
 def is_shared_store_path(root, path):
